@@ -34,6 +34,8 @@ Variable rules : key -> rule.
 Variable env : key -> N.
 Variable F : key -> N -> list value -> list N -> N -> N.
 Variable rank : key -> nat.
+(* the rule of key k with signature sg (Properties_C01: table_ok rules R says that the current table agrees with it) *)
+Variable R : key -> N -> rule.
 Notation cvK := (cvK rules env F rank).
 Notation bkK := (bkK rules env F rank).
 Notation n1 := (n1 rules).
@@ -43,20 +45,23 @@ Notation key_of_slot := (key_of_slot rules env F rank).
 (* ---------- rows: what a stored result says (the row_ok of SpecInv1 without single-use and discovered dependencies) ---------- *)
 Definition fresh (s : istate) (k : key) : Prop :=
   forall d, In d (deps s k) -> d_order d = false -> d_single d = false -> cAt s (d_key d) <= bAt s k.
+(* the rule a stored result was computed by: the rule of its key with its signature *)
+Definition rule_of (s : istate) (k : key) : rule := R k (res_sig (res_of s k)).
 Definition concl (s : istate) (k : key) (v : value) : Prop :=
-  let rl := rules k in
+  let rl := rule_of s k in
   let sl := map (stored s) (r_req rl) in
   let bk := branch_keys rl sl in
-  fst v = F k (r_sig rl) (map payload_of (sl ++ map (stored s) bk)) (map (fun d => snd (payload_of (stored s d))) (r_disc rl)) (snd v) /\
+  fst v = F k (res_sig (res_of s k)) (map payload_of (sl ++ map (stored s) bk)) (map (fun d => snd (payload_of (stored s d))) (r_disc rl)) (snd v) /\
   forall x, In x (r_req rl ++ bk ++ r_disc rl) -> In (mkDep x false false) (deps s k).
 Definition rowok (s : istate) (k : key) : Prop :=
-  exists v, stored s k = Some v /\ (r_obs (rules k) = false -> snd v = 0) /\
-            (forall d, In d (deps s k) -> In (d_key d) (requestable (rules k) ++ r_disc (rules k))) /\
+  exists v, stored s k = Some v /\ (r_obs (rule_of s k) = false -> snd v = 0) /\
+            (forall d, In d (deps s k) -> In (d_key d) (requestable (rule_of s k) ++ r_disc (rule_of s k))) /\
             (fresh s k -> concl s k v).
 
 Definition cstruct (s : istate) (k : key) : Prop :=
   let rl := rules k in
   let bk := branch_keys rl (map (stored s) (r_req rl)) in
+  res_sig (res_of s k) = r_sig rl /\
   (forall x, In x (r_req rl ++ bk) -> In (mkDep x false false) (deps s k) /\ curk s x) /\
   (forall x, In x (r_disc rl) -> In (mkDep x false false) (deps s k)) /\
   (forall d, In d (deps s k) -> In (d_key d) (requestable rl ++ r_disc rl) /\
@@ -98,7 +103,6 @@ Record BC (s : istate) : Prop := {
   b_bnd : forall k, idle s k -> cAt s k <= bAt s k;
   b_le : forall k, bAt s k <= is_epoch s /\ cAt s k <= is_epoch s;
   b_be : forall k, bAt s k = is_epoch s -> kind_of s k = KComplete;
-  b_sig : forall k, bAt s k <> 0 -> res_sig (res_of s k) = r_sig (rules k);
   b_rows : forall k, idle s k -> bAt s k <> 0 -> ~ curk s k -> rowok s k;
   (* a rule completed in this build: its requested inputs are recorded and complete; its discovered dependencies are recorded, and
      complete, in progress or about to be demanded *)
@@ -108,11 +112,11 @@ Record BC (s : istate) : Prop := {
 Record BS (x : option key) (s : istate) : Prop := {
   b_scan : forall rq, Sreq s rq -> forall j d, (j < sq_index rq)%nat -> nth_error (deps s (sq_rule rq)) j = Some d ->
              curk s (d_key d) /\ (d_order d = false -> cAt s (d_key d) <= bAt s (sq_rule rq));
-  b_scanning : forall k, kind_of s k = KScanning -> bAt s k <> 0 /\ valid rules env k (res_of s k) = true /\
+  b_scanning : forall k, kind_of s k = KScanning -> res_sig (res_of s k) = r_sig (rules k) /\ bAt s k <> 0 /\ valid rules env k (res_of s k) = true /\
                  (ri_deferred (rinfo_of s k) <> [] \/ ri_paused (rinfo_of s k) <> [] \/ x = Some k);
   b_dn : forall k, kind_of s k = KDoesNotNeedToRun ->
            (exists v, stored s k = Some v /\ Some v = cvK k /\ concl s k v) /\ (forall d, In d (deps s k) -> curk s (d_key d)) /\
-           bAt s k <> 0 /\ pending_for s k;
+           bAt s k <> 0 /\ pending_for s k /\ res_sig (res_of s k) = r_sig (rules k);
   (* a scan request that has its input cached has cached the order-only flag of that dependency *)
   b_sord : forall rq, Sreq s rq -> forall i d, sq_input rq = Some i -> nth_error (deps s (sq_rule rq)) (sq_index rq) = Some d -> sq_order rq = d_order d
 }.
@@ -124,7 +128,6 @@ Record HInv (s : istate) : Prop := {
   h_nc : forall k, ri_cancelled (rinfo_of s k) = false;
   h_dn : forall k, kind_of s k <> KDoesNotNeedToRun;
   h_bnd : forall k, cAt s k <= bAt s k /\ bAt s k <= is_epoch s;
-  h_sig : forall k, bAt s k <> 0 -> res_sig (res_of s k) = r_sig (rules k);
   h_rows : forall k, bAt s k <> 0 -> rowok s k
 }.
 End Inc.
